@@ -100,6 +100,9 @@ def worker_main(pid, casefile, outfile):
             res["wall"] = round(time.time() - t0, 4)
             out.write(dumps(res) + "\n")
             out.flush()
+            from . import world as _world
+            if _world.POISONED:
+                break   # the remaining cases are taken by the other workers
         if reached is not None:
             out.write(dumps({"_reached": sorted(reached)}) + "\n")
     return 0
